@@ -66,3 +66,8 @@ package dsmr
 //@   ensures err == nil ==> result0.Timestamp == timestamp && timestamp > parent.Timestamp && result0.ParentID == Block.GetID(parent)
 //@   ensures err == nil ==> len(result0.ChunkCerts) > 0
 //@   ensures err == nil ==> forall j int :: 0 <= j && j < len(result0.ChunkCerts) ==> !isnil(result0.ChunkCerts[j]) && result0.ChunkCerts[j].Expiry >= result0.Timestamp
+
+// (the same concrete method serves eheap.Item.GetID: one function symbol)
+//@ func Tx.GetID
+//@   pure
+//@   opt uf item_id
